@@ -71,7 +71,8 @@ func tokenOfDenom(d string) *big.Int {
 	panic("denom " + d)
 }
 
-// model time unit = 1 second, origin = timeBase (the harness only produces whole seconds);
+// model time unit = 1 millisecond, origin = timeBase (the harness produces whole milliseconds: some histories
+// carry sub-second block times and land on / next to the maturity instant of a queued unlock);
 // the zero time.Time (never jailed) maps to 0, like the model's initial value.
 const timeBase = 1700000000 - 1000
 
@@ -79,10 +80,10 @@ func nsOf(t time.Time) *big.Int {
 	if t.IsZero() {
 		return big.NewInt(0)
 	}
-	if t.Nanosecond() != 0 {
-		panic("sub-second time")
+	if t.Nanosecond()%1000000 != 0 {
+		panic("sub-millisecond time")
 	}
-	return big.NewInt(t.Unix() - timeBase)
+	return big.NewInt(t.UnixMilli() - timeBase*1000)
 }
 
 func decRepr(d math.LegacyDec) *big.Int { return d.BigInt() } // 18-digit integer representation
@@ -402,11 +403,11 @@ func lockingHistory(r *Rng, st *Stats, mask, focus string, blocks int, ci int) (
 	}
 	limitsCoq := "None"
 	if evLimits {
-		limitsCoq = fmt.Sprintf("(Some (%d, %d)%%Z)", int64(maxAgeDur/time.Second), maxAgeBlocks)
+		limitsCoq = fmt.Sprintf("(Some (%d, %d)%%Z)", int64(maxAgeDur/time.Millisecond), maxAgeBlocks)
 	}
 
 	initCoq := fmt.Sprintf("(mkLI (mkLP %d %d %d %d %d %d %s %s %d %d) %s %s)",
-		int64(p.UnlockDuration/time.Second), int64(p.ExitingDuration/time.Second), int64(p.DowntimeJailDuration/time.Second), p.MaxValidators, p.SignedBlocksWindow, p.MaxMissedPerWindow,
+		int64(p.UnlockDuration/time.Millisecond), int64(p.ExitingDuration/time.Millisecond), int64(p.DowntimeJailDuration/time.Millisecond), p.MaxValidators, p.SignedBlocksWindow, p.MaxMissedPerWindow,
 		decRepr(p.SlashFractionDoubleSign).String(), decRepr(p.SlashFractionDowntime).String(), p.HalvingInterval, p.InitialBlockReward,
 		cTuple(cZ(remain), "0%Z", "0%Z"), cList(preAcc))
 	initCoq = strings.ReplaceAll(initCoq, "(mkLP ", "(mkLP%Z ")
@@ -442,6 +443,8 @@ func lockingHistory(r *Rng, st *Stats, mask, focus string, blocks int, ci int) (
 		m[k].Add(m[k], v)
 	}
 	now := time.Unix(1700000000, 0).UTC()
+	prevNow := now
+	subSecond := r.Side(40).Chance(40) // four histories in ten carry sub-second block times
 	height := int64(1)
 	created := map[int]bool{}
 	anchored := false
@@ -556,6 +559,36 @@ func lockingHistory(r *Rng, st *Stats, mask, focus string, blocks int, ci int) (
 		if r.Chance(5) {
 			now = now.Add(p.DowntimeJailDuration)
 		}
+		if subSecond {
+			// sub-second block times; some blocks land exactly on, just before or just after the maturity instant of
+			// a queued unlock (side streams: the operations of the history stay what they were)
+			sd := r.Side(uint64(41 + b))
+			if sd.Chance(70) {
+				now = now.Add(time.Duration(sd.Intn(1000)) * time.Millisecond)
+			}
+			if sd.Chance(30) {
+				var keys []time.Time
+				it, _ := e.Locking.UnlockQueue.Iterate(e.Ctx, nil)
+				for ; it.Valid(); it.Next() {
+					k, _ := it.Key()
+					if k.After(prevNow.Add(time.Second)) {
+						keys = append(keys, k)
+					}
+				}
+				it.Close()
+				if len(keys) > 0 {
+					k := keys[sd.Intn(minInt(2, len(keys)))]
+					d := time.Duration([]int{-999, -500, -1, 0, 0, 1, 400}[sd.Intn(7)]) * time.Millisecond
+					if sd.Chance(30) {
+						d = -time.Duration(1+sd.Intn(999)) * time.Millisecond
+					}
+					now = k.Add(d)
+					st.Count(fmt.Sprintf("block-time:next-to-an-unlock-maturity:%s", map[bool]string{true: "before", false: "at-or-after"}[d < 0]))
+				}
+			}
+			st.Count("block-time:sub-second-history-block")
+		}
+		prevNow = now
 		ctx := e.Ctx.WithBlockHeight(height).WithBlockTime(now).WithConsensusParams(cp)
 		e.Ctx = ctx
 
@@ -906,6 +939,12 @@ func lockingHistory(r *Rng, st *Stats, mask, focus string, blocks int, ci int) (
 			} else {
 				if focus == "C18" {
 					initLockingPrefixes(e)
+					for _, v := range dumpLockingVals(e) {
+						if v.Status == lockingtypes.Pending && v.Power > 0 {
+							st.Count("export:state-has-a-wait-listed-validator-with-power")
+							break
+						}
+					}
 					exportImportCheck(e, st, []string{"locking"}, recs)
 				}
 				// C13: CometBFT must accept the updates; accumulated set must equal the module's record
@@ -987,6 +1026,34 @@ func lockingHistory(r *Rng, st *Stats, mask, focus string, blocks int, ci int) (
 		if r.Chance(30) || b == blocks-1 {
 			d := dumpNow("")
 			checkLedgers(d, fmt.Sprintf("dump at height %d", height))
+			// C15 "once" also means not zero times: an accepted unlock that has not been handed over yet is still
+			// waiting in the maturity queue or in the hand-over queue
+			waiting := map[uint64]bool{}
+			if it, err := k.UnlockQueue.Iterate(e.Ctx, nil); err == nil {
+				for ; it.Valid(); it.Next() {
+					v, _ := it.Value()
+					for _, u := range v.Unlocks {
+						waiting[u.Id] = true
+					}
+				}
+				it.Close()
+			}
+			if q, err := k.EthTxQueue.Get(e.Ctx); err == nil {
+				for _, u := range q.Unlocks {
+					waiting[u.Id] = true
+				}
+			}
+			var lostIDs []uint64
+			for id := range reqTime {
+				if !deliveredIDs[id] && !waiting[id] {
+					lostIDs = append(lostIDs, id)
+				}
+			}
+			st.Chk("C15-not-lost")
+			if len(lostIDs) > 0 {
+				sort.Slice(lostIDs, func(i, j int) bool { return lostIDs[i] < lostIDs[j] })
+				st.Violate("C15", "once", "unlock-lost", fmt.Sprintf("unlock %d (and %d more) was accepted but is neither handed over nor waiting in a queue at height %d: it can never be released", lostIDs[0], len(lostIDs)-1, height), recs)
+			}
 		}
 		height++
 	}
